@@ -688,6 +688,11 @@ func (ts *Terms) loadAlloc(a *ssa.Alloc, fld *ssa.FieldAddr, fr *Frame, depth in
 		name := fieldNameShort(fld.X.Type(), fld.Field)
 		if len(m) == 0 {
 			if len(whole) == 0 {
+				// filled in by an irismod callee the address was handed to (bind(&swap)): the
+				// value that callee stores into the field
+				if t := ts.calleeFilledField(a, fld.Field, fr, depth, at); t != nil {
+					return t
+				}
 				// filled through its address by a call (Unmarshal(bz, &x)): name it by that call
 				for _, r := range *a.Referrers() {
 					if ci, ok := r.(*ssa.Call); ok {
@@ -2311,4 +2316,73 @@ func hasOp(t *Term, ops ...string) bool {
 		}
 	}
 	return false
+}
+
+// calleeFilledField: field f of the local a is assigned only by irismod callees that were
+// handed a's address (each on all of its non-failure returns, with the caller going on only
+// after success): the value stored, in the callee's frame. nil when that is not the case.
+func (ts *Terms) calleeFilledField(a *ssa.Alloc, f int, fr *Frame, depth int, at ssa.Instruction) *Term {
+	if depth >= 30 || frameDepth(fr) >= 12 || a.Referrers() == nil {
+		return nil
+	}
+	m := map[string]*Term{}
+	for _, r := range *a.Referrers() {
+		c, ok := r.(*ssa.Call)
+		if !ok {
+			continue
+		}
+		if c.Common().IsInvoke() {
+			return nil
+		}
+		g := c.Common().StaticCallee()
+		if g == nil || g.Blocks == nil || !isIrismodFunc(g) || onChain(fr, g) {
+			return nil
+		}
+		if at != nil && at.Parent() == a.Parent() && !instrReaches(c, at) {
+			continue
+		}
+		succeeded := false
+		if at != nil && at.Parent() == a.Parent() {
+			for _, cf := range callFacts(at.Block()) {
+				if cf.Call == c && cf.Outcome == "err==nil" {
+					succeeded = true
+				}
+			}
+		}
+		for i, arg := range c.Common().Args {
+			if arg != ssa.Value(a) || i >= len(g.Params) || g.Params[i].Referrers() == nil {
+				continue
+			}
+			nfr := &Frame{Fn: g, Parent: fr, Call: c, Depth: frameDepth(fr) + 1}
+			for _, pr := range *g.Params[i].Referrers() {
+				fa, ok := pr.(*ssa.FieldAddr)
+				if !ok || fa.Field != f || fa.Referrers() == nil {
+					continue
+				}
+				for _, r2 := range *fa.Referrers() {
+					st, ok := r2.(*ssa.Store)
+					if !ok || st.Addr != ssa.Value(fa) {
+						continue
+					}
+					for _, ret := range returnsOf(g) {
+						if succeeded && isFailureReturn(ret) {
+							continue
+						}
+						if !instrDominates(st, ret) {
+							return nil
+						}
+					}
+					if at != nil && at.Parent() == a.Parent() && !instrDominates(c, at) {
+						return nil
+					}
+					t := ts.of(st.Val, nfr, depth+1)
+					m[t.String()] = t
+				}
+			}
+		}
+	}
+	if len(m) == 0 {
+		return nil
+	}
+	return phiOf(m)
 }
